@@ -185,11 +185,148 @@ def option_outcomes(fn, call_bb):
     return None
 
 
-def dominated_by_edge(fn, sw_bb, target, b):
-    """block b is dominated by the CFG edge sw_bb -> target"""
+def _cyclic_blocks(fn):
+    c = getattr(fn, "_cyclic", None)
+    if c is None:
+        c = {b for b in fn.nodes() if fn.reaches(b, b)}
+        fn._cyclic = c
+    return c
+
+
+def edge_provenance(fn, sb, target, depth=0):
+    """Blocks D such that taking the edge sb -> target implies that control went through one of D: the definitions that gave the
+    switched value the variant (or boolean) this edge selects.  `let r = if ok { Ok(x) } else { Err(e) }; match r { Ok(..) => B }`:
+    the Ok edge implies the block constructing `Ok`.  None when a definition of unknown value (a call result, an argument) may reach
+    the switch."""
+    if depth > 6:
+        return None
+    st = fn.term(sb)
+    if st["k"] != "switch":
+        return None
+    s = switch_subject(fn, sb)
+    want_variant = want_bool = None
+    if s["kind"] == "discr" and s["variants"] and s["place"] is not None and not [e for e in s["place"][1] if e[0] != "deref"]:
+        vals = [v for v, t in [(a[0], a[1]) for a in st["arms"]] if t == target]
+        names = {s["variants"].get(v) for v in vals}
+        if target == st["otherwise"]:
+            listed = {a[0] for a in st["arms"]}
+            names |= {nm for v, nm in s["variants"].items() if v not in listed}
+        names.discard(None)
+        if len(names) != 1:
+            return None
+        want_variant = next(iter(names))
+        root = s["place"][0]
+    elif s["kind"] == "value" and s["root"] is not None:
+        root = s["root"]
+        if "bool" not in fn.local_ty(root):
+            return None
+        want_bool = (target == st["otherwise"]) if target != edge_target(st, 0) or target == st["otherwise"] else False
+        if target == edge_target(st, 0) and target != st["otherwise"]:
+            want_bool = False
+    else:
+        return None
+    out = set()
+    alld = set()
+    seen = set()
+    wanted = {want_variant} if want_variant is not None else set()
+    # `if !flag`: the switched value is the negation of a boolean local
+    if want_bool is not None:
+        dr = fn.single_def(root)
+        for _ in range(3):
+            if dr and dr[0] == "assign" and dr[3]["k"] == "unop" and dr[3]["op"] == "Not" and op_local(dr[3]["operand"]) is not None:
+                want_bool = not want_bool
+                root = op_local(dr[3]["operand"])
+                dr = fn.single_def(root)
+            elif dr and dr[0] == "assign" and dr[3]["k"] == "use" and op_local(dr[3]["op"]) is not None:
+                root = op_local(dr[3]["op"])
+                dr = fn.single_def(root)
+            else:
+                break
+
+    def walk(l, d):
+        if d > 12 or l in seen:
+            return True
+        seen.add(l)
+        ds = fn.defs.get(l, [])
+        if not ds or 1 <= l <= fn.argc:
+            return False
+        for x in ds:
+            alld.add(x[1])
+            if x[0] == "call" and callee_is(x[2]["callee"], "core::ops::try_trait::Try::branch") and x[2]["args"] and wanted:
+                # ControlFlow::Continue <=> the operand was Ok / Some, Break <=> Err / None
+                yl = op_local(x[2]["args"][0])
+                if yl is None:
+                    return False
+                if "Continue" in wanted:
+                    wanted.discard("Continue")
+                    wanted.update(("Ok", "Some"))
+                elif "Break" in wanted:
+                    wanted.discard("Break")
+                    wanted.update(("Err", "None"))
+                if not walk(yl, d + 1):
+                    return False
+                continue
+            if x[0] == "assign":
+                rv = x[3]
+                if rv["k"] == "aggregate" and wanted and rv.get("variant") is not None:
+                    if rv["variant"] in wanted:
+                        out.add(x[1])
+                    continue
+                if rv["k"] == "use":
+                    c = rv["op"]
+                    if c["k"] == "const":
+                        if want_bool is not None and isinstance(c.get("val"), bool):
+                            if c["val"] == want_bool:
+                                out.add(x[1])
+                            continue
+                        return False
+                    pl = op_place(c)
+                    if pl is not None and not pl[1]:
+                        if not walk(pl[0], d + 1):
+                            return False
+                        continue
+                return False
+            else:
+                return False
+        return True
+    if not walk(fn.copy_root(root) if fn.single_def(root) else root, 0):
+        return None
+    if not out:
+        return None
+    fn._prov_alld = getattr(fn, "_prov_alld", {})
+    fn._prov_alld[(sb, target)] = set(alld)
+    # the value must be fresh at every visit of the switch: without its definitions the switch is neither reachable nor on a cycle
+    # (otherwise, in a loop, the value tested could stem from an earlier iteration)
+    if sb in fn.reachable_from(0, avoid=alld):
+        return None
+    for s2 in fn.succ.get(sb, []):
+        if s2 not in alld and sb in fn.reachable_from(s2, avoid=alld):
+            return None
+    return out
+
+
+def dominated_by_edge(fn, sw_bb, target, b, _depth=0):
+    """block b is dominated by the CFG edge sw_bb -> target - directly, or because b is dominated by another edge whose switched value
+    can only have been constructed in blocks that are themselves dominated by sw_bb -> target (a guard evaluated in an (inlined) helper
+    and handed back as Ok/Err, Some/None, an enum variant or a bool).  Inside a loop the indirect form requires the switched value to be freshly defined in the same turn."""
     if target is None:
         return False
-    return fn.edge_dominates(sw_bb, target, b)
+    if fn.edge_dominates(sw_bb, target, b):
+        return True
+    if _depth > 3:
+        return False
+    for sb2, st2 in fn.switches():
+        if sb2 == sw_bb:
+            continue
+        for t2 in set(fn.succ.get(sb2, [])):
+            if not fn.edge_dominates(sb2, t2, b):
+                continue
+            D = edge_provenance(fn, sb2, t2)
+            if not D:
+                continue
+            if all(dominated_by_edge(fn, sw_bb, target, d, _depth + 1) for d in D):
+                return True
+    return False
 
 
 # ------------------------------------------------------------------------------------
@@ -1002,3 +1139,39 @@ def origin_local(fn, local, depth=0):
                         return origin_local(fn, il, depth + 1)
             return local
     return local
+
+
+def infeasible_edges_from(fn, start, stop):
+    """Switch edges that no execution starting at block `start` can take before reaching `stop`: the switched value is (re)defined on every
+    path from `start` to the switch, and none of the definitions that give it the variant / boolean the edge needs lies between `start`
+    and `stop`.  (`let counted = match site { .. InsufficientData => false }; if !counted { skip() }`: from the InsufficientData arm the
+    `counted` edge cannot be taken.)"""
+    out = set()
+    near = fn.reachable_from(start, avoid={stop}) | {start}
+    for sb, st in fn.switches():
+        if sb not in near:
+            continue
+        for t in set(fn.succ.get(sb, [])):
+            D = edge_provenance(fn, sb, t)
+            if not D:
+                continue
+            alld = getattr(fn, "_prov_alld", {}).get((sb, t), set())
+            if sb in fn.reachable_from(start, avoid=alld) and start not in alld:
+                continue  # the value may have been defined before `start`
+            if not (D & near):
+                out.add((sb, t))
+    return out
+
+
+def reachable_with_edges_removed(fn, start, avoid, removed):
+    seen = set()
+    st = [start]
+    while st:
+        x = st.pop()
+        if x in seen or x in avoid:
+            continue
+        seen.add(x)
+        for s2 in fn.succ.get(x, []):
+            if (x, s2) not in removed:
+                st.append(s2)
+    return seen
